@@ -109,7 +109,8 @@ def genCombos (c : Cluster) (idx : Nat) (mismatch : Bool) : Gen (List Options) :
     out := out.push { dbFilter, tableFilter, listOnly := (k / 4) % 2 == 1, skipSystem := (k / 8) % 2 == 0, pgVersion := hint }
   return out.toList
 
-/-! hand-made minimal clusters: the sanity case and the witnesses of the recorded findings -/
+/-! hand-made minimal clusters: the sanity case and the witnesses of the three findings repaired by fixes/cluster/08 and 09
+(former A01z, A04, A03: kept as fixed cases, now inside the scope of `C01_dump`) -/
 
 def mkAttr (relid : Nat) (num : Nat) (name : String) (typid : Nat) (len : Int) (align : Nat) : Spec.Stored Spec.AttrRow :=
   ⟨{ relid, name := strBytes name, typid, len, num := (num : Int), align }, 0x0900⟩
@@ -131,12 +132,12 @@ def fixedClusters : List (Cluster × List Options) :=
     (miniCluster 14 true [mkAttr 16384 1 "id" 23 4 4, mkAttr 16384 2 "name" 25 (-1) 4]
        [liveRow [i4 7, some (.short (strBytes "alice"))], { vals := [i4 8, some (.short (strBytes "bob"))], natts := 2, infomask := 0x0500 }],
      [{}, { listOnly := true }, { tableFilter := strBytes "T" }, { dbFilter := strBytes "Postgres" }]),
-    -- 1: A01z — a table without columns that has a live row (CREATE TABLE t (); INSERT INTO t DEFAULT VALUES)
+    -- 1: former A01z — a table without columns that has a live row (CREATE TABLE t (); INSERT INTO t DEFAULT VALUES)
     (miniCluster 14 true [] [liveRow []], [{}]),
-    -- 2: A04 — PostgreSQL 16 layout, pg_attribute does not start with attnum 1..5, no version hint
+    -- 2: former A04 — PostgreSQL 16 layout, pg_attribute does not start with attnum 1..5, no version hint
     (miniCluster 16 false [mkAttr 16384 2 "name" 25 (-1) 4, mkAttr 16384 1 "id" 23 4 4]
        [liveRow [i4 7, some (.short (strBytes "alice"))]], [{}, { pgVersion := 16 }]),
-    -- 3: A03 — a dropped `name` column (attlen 64, attalign 'c') after a one-byte column: the tool aligns it to 8
+    -- 3: former A03 — a dropped `name` column (attlen 64, attalign 'c') after a one-byte column (typeAlign would say 8)
     (miniCluster 14 true [mkAttr 16384 1 "flag" 16 1 1,
         ⟨{ relid := 16384, name := strBytes "........pg.dropped.2........", typid := 0, len := 64, num := 2, align := 1, dropped := true }, 0x0900⟩,
         mkAttr 16384 3 "n" 23 4 4]
@@ -148,9 +149,18 @@ def genClusterCase (seed idx size : Nat) : Cluster × List Options :=
       let combos ← genCombos c idx (idx % 10 == 9)
       return (c, combos)).run' (Prng.ofSeed seed idx)
 
-/-- class of finding A03: a relation with a heap in which some live row stores a value in a column whose true
-alignment differs from the tool's typeAlign fallback (the tool never sees the real attalign) -/
-def inA03 (c : Cluster) : Bool :=
+/-- histogram labels for the classes of the three repaired findings (coverage only: the cases are ordinary cases now).
+`zerocol`: an ordinary table without columns that has a live row (former A01z); `alignfb`: some live row stores a value in
+a column whose attalign differs from `typeAlign(atttypid, attlen)` (former A03); `v16order`: no version hint on a
+PostgreSQL 16 database whose first five live pg_attribute rows are not attnum 1..5 (former A04) -/
+def coverZeroCol (c : Cluster) : Bool :=
+  c.content.any fun (_, d) => d.cls.live.any fun r =>
+    r.filenode != 0 && (Spec.userAttrs d.att r.oid).isEmpty &&
+    match d.heaps.lookup r.filenode with
+    | some pages => !(Spec.liveRows pages []).isEmpty
+    | none => false
+
+def coverAlignFallback (c : Cluster) : Bool :=
   c.content.any fun (_, d) => d.heaps.any fun (fn, pages) =>
     match Spec.relOfFilenode d.cls fn with
     | none => false
@@ -161,18 +171,10 @@ def inA03 (c : Cluster) : Bool :=
       !bad.isEmpty && (Spec.liveRows pages cols).any fun row =>
         bad.any fun i => i < row.natts && (row.vals.getD i none).isSome
 
-/-- class of finding A04: auto-detection (hint 0) on a database whose first five live pg_attribute rows are not 1..5 -/
-def inA04 (c : Cluster) (combos : List Options) : Bool :=
-  combos.any (·.pgVersion == 0) && c.content.any fun (_, d) => !Gen.autoDetectOK c.layout d
-
-/-- class of the zero-column residue of A01: an ordinary table without columns that has a live row
-(DecodeTuple(tuple with empty data, no columns) = nil is pinned by TestDecodeTupleEmpty) -/
-def inA01z (c : Cluster) : Bool :=
-  c.content.any fun (_, d) => d.cls.live.any fun r =>
-    r.filenode != 0 && (Spec.userAttrs d.att r.oid).isEmpty &&
-    match d.heaps.lookup r.filenode with
-    | some pages => !(Spec.liveRows pages []).isEmpty
-    | none => false
+def coverV16Order (c : Cluster) (combos : List Options) : Bool :=
+  c.layout == .v16 && combos.any (·.pgVersion == 0) && c.content.any fun (_, d) =>
+    let live := d.att.live
+    !(live.length ≥ 5 && ((live.take 5).zipIdx.all fun (a, i) => a.num == (i : Int) + 1))
 
 /-- run-time re-check of the reader hypothesis of `C01_dump_partial` on this cluster: ReadRows applied to every
 encoded pg_class yields the live rows (as far as oid, relname, relfilenode, relkind go) -/
@@ -184,8 +186,7 @@ def classHypOK (c : Cluster) : Bool :=
 
 /-- run-time re-check of the hypotheses of the full theorem `C01_dump` on this case: the cluster is well-formed and
 every option combination satisfies `Model.ClusterHyp.dumpHypB` (proved to imply the theorem's `DbDumpable`
-hypothesis: `Proofs.Cluster.dumpHypB_sound`).  Inside the scope the theorem says model = spec — also when the case
-carries one of the (coarser, cluster-wide) `kf:` class tags because of a relation or database the options do not dump. -/
+hypothesis: `Proofs.Cluster.dumpHypB_sound`).  Inside the scope the theorem says model = spec. -/
 def dumpHypOK (c : Cluster) (combos : List Options) : Bool :=
   Gen.clusterWFB c && combos.all (Model.ClusterHyp.dumpHypB c)
 
@@ -201,9 +202,9 @@ def clusterTags (c : Cluster) (combos : List Options) (spec : String) : List Str
   (if Gen.clusterWFB c then [] else ["notwf"]) ++
   [if classHypOK c then "hyp:class=ok" else "hyp:class=FAIL"] ++
   [if dumpHypOK c combos then "hyp:dump=ok" else "hyp:dump=no"] ++
-  (if inA01z c then ["kf:A01z"] else []) ++
-  (if inA03 c then ["kf:A03"] else []) ++
-  (if inA04 c combos then ["kf:A04"] else []) ++
+  (if coverZeroCol c then ["zerocol"] else []) ++
+  (if coverAlignFallback c then ["alignfb"] else []) ++
+  (if coverV16Order c combos then ["v16order"] else []) ++
   (if spec.length > 200 then ["nt"] else [])
 
 def clusterDumpGen (seed idx size : Nat) : Case :=
@@ -750,8 +751,8 @@ def catmutModel (ver : Nat) (dbF clsF attF : Bytes) (heap : Option Bytes) : Stri
     else if p == strBytes "base/5/1249" then some attF
     else heap
   let all := [okOrPanicC (Model.parsePGDatabase rr dbF), okOrPanicC (Model.parsePGClass rr clsF),
-              okOrPanicC (Model.parsePGAttribute rr attF 0), okOrPanicC (Model.parsePGAttribute rr attF 15),
-              okOrPanicC (Model.parsePGAttribute rr attF 16),
+              okOrPanicC (Model.parsePGAttribute rr attF 0), okOrPanicC (Model.parsePGAttribute rr attF 13),
+              okOrPanicC (Model.parsePGAttribute rr attF 15), okOrPanicC (Model.parsePGAttribute rr attF 16),
               okOrPanicC (Model.dumpDatabaseFromFiles rr idOrder clsF attF (some fun _ => heap) { skipSystem := false, pgVersion := ver }),
               okOrPanicC (Model.dumpDatabaseFromFiles rr idOrder clsF attF none { pgVersion := ver }),
               okOrPanicC (Model.rcDumpAll rr idOrder fs Model.Cache.empty),
